@@ -318,6 +318,16 @@ class RBFEvaluator(FuncEvaluator, XCEvalSerializable):
         self._exps = np.ascontiguousarray(0.5 / kernel.length_scale**2)
         self._nctrl, self._nfeat = self._X1ctrl.shape[-2:]
         self._indexes = np.ascontiguousarray(indexes)
+        self._check_ctrl_width()
+
+    def _check_ctrl_width(self):
+        # the C kernel reads nfeat entries per row of the (sliced) input
+        if self._nfeat != len(self._indexes):
+            raise ValueError(
+                "X1ctrl must have exactly the {} columns the kernel acts on, got {}".format(
+                    len(self._indexes), self._nfeat
+                )
+            )
 
     def __call__(self, X1, res=None, dres=None):
         X1 = np.ascontiguousarray(X1[..., self._indexes])
@@ -358,6 +368,12 @@ class AntisymRBFEvaluator(RBFEvaluator):
         else:
             assert isinstance(kernel, DiffRBF)
         self._indexes = np.arange(len(kernel.length_scale) + 1, dtype=np.int32)
+        RBFEvaluator._check_ctrl_width(self)
+
+    def _check_ctrl_width(self):
+        # deferred: the antisymmetric kernel acts on one more column than it has
+        # length scales (checked at the end of __init__)
+        pass
 
     def __call__(self, X1, res=None, dres=None):
         assert X1.ndim == 2 or (X1.ndim == 3 and X1.shape[0] == 1)
